@@ -196,6 +196,15 @@ let () =
          let all f = List.for_all f roots in
          Buffer.add_string buf (Printf.sprintf "C01=%d C02=%d C03=%d C05=%d C13=%d"
            (b2i (chk_C01 input roots)) (b2i (all (chk_C02_root v))) (b2i (all chk_C03_root)) (b2i (all chk_C05_root)) (b2i (all chk_C13_root)))
+       | "chk17" ->
+         (* C17: the side condition chkRoots of C17_no_rejected_start_doc_partial (it does not depend on the predicate: chkB_setP),
+            evaluated on the implementation's tree; k selects soft-break behaviour and IgnoreRaw, the filter is switched on *)
+         (try
+            let (roots, _) = parse_roots (tokenize f0) [] in
+            let c0 = cfg_of k in
+            let c = { softBreak = c0.softBreak; ignoreRaw = c0.ignoreRaw; filterOn = true; filterP = (fun _ -> false) } in
+            Buffer.add_string buf (if chkRoots c (refsOfRoots roots) roots then "1" else "0")
+          with Bad m -> Buffer.add_string buf ("BADDUMP " ^ m))
        | "leafok" ->
          (* C07: the leaf hypothesis of C07_render_safeW, evaluated on the implementation's tree *)
          (try
